@@ -444,9 +444,85 @@ def _inline_body(st, callee, caller_names, func):
     return out
 
 
+def _counted_while_to_for(func):
+    """`v = 0 … while v < E: body; v += 1` -> `for v in range(E): body`
+    (v assigned nowhere else, no continue in the body) – the two loops run
+    the body for the same values of v"""
+    cands = []
+    for n in walk(func):
+        if not isinstance(n, ast.While) or n.orelse or not n.body:
+            continue
+        t = n.test
+        if not (isinstance(t, ast.Compare) and len(t.ops) == 1
+                and isinstance(t.ops[0], ast.Lt)
+                and isinstance(t.left, ast.Name)):
+            continue
+        v = t.left.id
+        last = n.body[-1]
+        if not (isinstance(last, ast.AugAssign) and isinstance(
+                last.op, ast.Add) and isinstance(last.target, ast.Name)
+                and last.target.id == v and isinstance(
+                last.value, ast.Constant) and last.value.value == 1):
+            continue
+        if any(isinstance(x, ast.Continue) for x in walk(n)):
+            continue
+        if v in names_in(t.comparators[0]):
+            continue
+        inits = [x for x in walk(func) if isinstance(x, ast.Assign)
+                 and any(isinstance(tt, ast.Name) and tt.id == v
+                         for tt in x.targets)]
+        others = [x for x in walk(func) if isinstance(
+            x, (ast.AugAssign, ast.For)) and x is not last
+            and v in names_in(x.target)]
+        if len(inits) != 1 or others or not (
+                isinstance(inits[0].value, ast.Constant)
+                and inits[0].value.value == 0
+                and len(inits[0].targets) == 1):
+            continue
+        blk = n.parent
+        body = None
+        for fld in ("body", "orelse", "finalbody"):
+            lst = getattr(blk, fld, None)
+            if isinstance(lst, list) and n in lst and inits[0] in lst \
+                    and lst.index(inits[0]) < lst.index(n):
+                body = fld
+        if body is None:
+            continue
+        # the bound must not change inside the loop
+        assigned = {x.id for x in ast.walk(n) if isinstance(x, ast.Name)
+                    and isinstance(x.ctx, ast.Store)}
+        if names_in(t.comparators[0]) & assigned:
+            continue
+        cands.append((n, inits[0], v))
+    if not cands:
+        return func
+    new = _clone(func)
+    olds = [x for x in walk(func)]
+    news = [x for x in walk(new)]
+    where = {id(o): x for o, x in zip(olds, news)}
+    for n, init, v in cands:
+        wn_, wi_ = where[id(n)], where[id(init)]
+        loop = ast.For(
+            target=ast.Name(id=v, ctx=ast.Store()),
+            iter=ast.Call(func=ast.Name(id="range", ctx=ast.Load()),
+                          args=[wn_.test.comparators[0]], keywords=[]),
+            body=wn_.body[:-1] or [ast.Pass()], orelse=[])
+        ast.copy_location(loop, wn_)
+        _replace_stmt(new, wn_, [loop])
+        _replace_stmt(new, wi_, [])
+    ast.fix_missing_locations(new)
+    _relink(new, func.parent)
+    for k in ("expanded_from",):
+        if hasattr(func, k):
+            setattr(new, k, getattr(func, k))
+    return new
+
+
 def wfunc(repo, rel, qual):
-    """function with calls to private helpers expanded (one level)"""
-    return expand_private_calls(repo, rel, repo.func(rel, qual))
+    """function with calls to private helpers expanded (one level) and
+    counted while-loops written as for-range loops"""
+    return _counted_while_to_for(
+        expand_private_calls(repo, rel, repo.func(rel, qual)))
 
 
 # ----------------------------------------------------------------------
@@ -900,6 +976,31 @@ def r12(ctx, func, fr, sym, stores):
                 except AnalysisError:
                     continue
             guards.append((anc, on_true))
+    # guard clauses (`if not remain: return`): a test from which the store
+    # is reachable through exactly one branch guards it just the same
+    cfg_ = CFG(func)
+    st_ids = set(cfg_.ids_of(st["stmt"]))
+    for n_ in cfg_.nodes:
+        if n_.kind != "test" or not isinstance(n_.ast, ast.If) \
+                or any(n_.ast is g for g, _ in guards):
+            continue
+        if any(n_.ast is a for a in ancestors(st["stmt"])):
+            continue
+        via = {}
+        for lab in ("T", "F"):
+            succ = [b_ for (b_, l_) in cfg_.succ[n_.id] if l_ == lab]
+            via[lab] = bool(st_ids & cfg_.reach(succ, include_sources=True))
+        if via["T"] == via["F"]:
+            continue
+        try:
+            operands = [x for x in ast.walk(n_.ast.test)
+                        if isinstance(x, ast.Name)]
+            if not operands or not all(
+                    sym.rat(x).same(rem) for x in operands):
+                continue
+        except AnalysisError:
+            continue
+        guards.append((n_.ast, via["T"]))
     ok = True
     why = "the remainder is written whenever events remain"
     for g, on_true in guards:
@@ -1742,15 +1843,28 @@ def _log_reader_only_decodes(ctx, repo):
     may undo exactly that: every value it returns is the stored element or
     `<element>.decode(codec)` – no stripping, slicing or replacing."""
     f = repo.func(LG, "H5Logs.__getitem__")
-    rets = [n for n in walk(f) if isinstance(n, ast.Return)]
-    if len(rets) != 1 or not isinstance(rets[0].value, ast.Name):
+    rets = [n for n in walk(f) if isinstance(n, ast.Return)
+            and n.value is not None]
+    if not rets:
         raise AnalysisError("H5Logs.__getitem__: return form")
-    name = rets[0].value.id
-    defs = [n for n in walk(f) if isinstance(n, ast.Assign)
-            and any(isinstance(t, ast.Name) and t.id == name
-                    for t in n.targets)]
-    if not defs:
-        raise AnalysisError("H5Logs.__getitem__: log value lost")
+    # every expression a return can hand out: the returned expression, or
+    # (for a name) each of its definitions
+    defs = []
+    seen_names = set()
+    for r_ in rets:
+        if isinstance(r_.value, ast.Name):
+            if r_.value.id in seen_names:
+                continue
+            seen_names.add(r_.value.id)
+            ds = [n for n in walk(f) if isinstance(n, ast.Assign)
+                  and any(isinstance(t, ast.Name) and t.id == r_.value.id
+                          for t in n.targets)]
+            if not ds:
+                raise AnalysisError("H5Logs.__getitem__: log value lost")
+            defs += ds
+        else:
+            defs.append(r_)
+    defs.sort(key=lambda n: n.lineno)
 
     def plain_elt(e, var):
         """var | var.decode(..) | conditional of the two"""
@@ -1971,19 +2085,68 @@ def _dtype_by_name_only(ctx, repo, sf, scalar):
                     fname in names_in(c)):
                 return "pattern"
         return None
+    class _Sub(ast.NodeTransformer):
+        def __init__(self, m):
+            self.m = m
+
+        def visit_Name(self, node):
+            if node.id in self.m and isinstance(node.ctx, ast.Load):
+                return _clone(self.m[node.id])
+            return node
+
+    def first_match(v):
+        """tests of `next((V for A, V in TABLE if <test>), None)` with the
+        row variables replaced by the rows of the literal TABLE; None when
+        `v` is not of that form"""
+        if not (isinstance(v, ast.Call) and call_name(v) == "next"
+                and 1 <= len(v.args) <= 2 and isinstance(
+                v.args[0], (ast.GeneratorExp, ast.ListComp))
+                and len(v.args[0].generators) == 1):
+            return None
+        if len(v.args) == 2 and not (isinstance(v.args[1], ast.Constant)
+                                     and v.args[1].value is None):
+            return None
+        g = v.args[0].generators[0]
+        table = deref(repo, WR, sf, g.iter) if isinstance(
+            g.iter, ast.Name) else g.iter
+        if not isinstance(table, (ast.Tuple, ast.List)) or not g.ifs:
+            return None
+        tests = []
+        for row in table.elts:
+            if isinstance(g.target, ast.Tuple) and isinstance(
+                    row, (ast.Tuple, ast.List)) and len(row.elts) == len(
+                    g.target.elts) and all(isinstance(t, ast.Name)
+                                           for t in g.target.elts):
+                m = {t.id: e for t, e in zip(g.target.elts, row.elts)}
+            elif isinstance(g.target, ast.Name):
+                m = {g.target.id: row}
+            else:
+                return None
+            for c in g.ifs:
+                tests.append(_Sub(m).visit(_clone(c)))
+        return tests
+
     for k, st in enumerate(sets):
         conds = [a for a in ancestors(st) if isinstance(a, ast.If)
                  and any(st is x for b in a.body for x in walk(b))]
         conds = [a for a in conds if any(a is x for x in walk(sf))]
-        if not conds:
+        tests = [a.test for a in conds]
+        fm = first_match(st.value)
+        if fm is not None:
+            # a first-match dispatch: the dtype applies where a row's test
+            # holds – the row tests are the conditions
+            tests = tests + fm
+            conds = conds + [st] * len(fm)
+        if not tests:
             raise AnalysisError(f"store_feature: `{short(st, 30)}` is "
                                 f"unconditional")
-        kinds = [classify(a.test) for a in conds]
+        kinds = [classify(t) for t in tests]
         if "pattern" in kinds:
             bad = conds[kinds.index("pattern")]
+            badt = tests[kinds.index("pattern")]
             ctx.ob("R1.5", False,
                    f"`{short(st, 30)}` applies under the pattern test "
-                   f"`{short(bad.test, 60)}`: user-defined / plugin features "
+                   f"`{short(badt, 60)}`: user-defined / plugin features "
                    f"whose name matches are cast as well (fractions "
                    f"truncated, negative values wrapped)", node=bad,
                    label=f"dtype narrowing by listed names only [{k}]")
@@ -1994,7 +2157,7 @@ def _dtype_by_name_only(ctx, repo, sf, scalar):
         else:
             raise AnalysisError(
                 f"store_feature: condition of `{short(st, 30)}` "
-                f"(`{short(conds[kinds.index(None)].test, 50)}`) cannot be "
+                f"(`{short(tests[kinds.index(None)], 50)}`) cannot be "
                 f"classified")
 
 
@@ -3471,6 +3634,81 @@ def _ragged_try_except_two_steps_zero(src):
         "            curid = len(grp)\n", "            curid = 0\n")
 
 
+def _dtype_first_match(src, second="(FEATURES_UINT64, np.uint64)",
+                       test="feat in feat_names"):
+    old = ("        if feat in FEATURES_UINT32:\n"
+           "            dtype = np.uint32\n"
+           "        elif feat in FEATURES_UINT64:\n"
+           "            dtype = np.uint64\n"
+           "        else:\n"
+           "            dtype = None\n")
+    if src.count(old) != 1:
+        return src
+    return src.replace(
+        old, "        dtype_dispatch = (\n"
+        "            (FEATURES_UINT32, np.uint32),\n"
+        f"            {second},\n"
+        "        )\n"
+        "        dtype = next((feat_dtype for feat_names, feat_dtype in "
+        "dtype_dispatch\n"
+        f"                      if {test}), None)\n")
+
+
+def _dtype_first_match_suffix(src):
+    return _dtype_first_match(
+        src, second='(("_max", "_npeaks"), np.uint32)',
+        test="feat in feat_names or feat.endswith(tuple(feat_names))")
+
+
+def _chunk_while_loop(src, guard="if not num_remain:"):
+    first = "            chunk_size = dset.chunks[0]\n"
+    last = "                dset[offset+start_e:offset+stop_e] = "
+    a = src.find(first)
+    b = src.find(last, a)
+    if a < 0 or b < 0:
+        return src
+    b = src.index("\n", b) + 1
+    return src[:a] + (
+        "            chunk_size = dset.chunks[0]\n"
+        "            num_chunks = len(data) // chunk_size\n"
+        "            ii = 0\n"
+        "            while ii < num_chunks:\n"
+        "                start = ii * chunk_size\n"
+        "                stop = start + chunk_size\n"
+        "                dset[offset+start:offset+stop] = data[start:stop]\n"
+        "                ii += 1\n"
+        "            num_remain = len(data) % chunk_size\n"
+        f"            {guard}\n"
+        "                return dset\n"
+        "            start_e = num_chunks * chunk_size\n"
+        "            stop_e = start_e + num_remain\n"
+        "            dset[offset+start_e:offset+stop_e] = "
+        "data[start_e:stop_e]\n") + src[b:]
+
+
+def _chunk_while_loop_bad_guard(src):
+    return _chunk_while_loop(src, guard="if num_remain < 2:")
+
+
+def _log_reader_guard_clauses(src):
+    old = ('        if key in self.keys():\n'
+           '            log = list(self.h5file["logs"][key])\n'
+           '            if isinstance(log[0], bytes):\n'
+           '                log = [li.decode("utf") for li in log]\n'
+           '        else:\n')
+    a = src.find(old)
+    b = src.find("        return log\n", a)
+    if a < 0 or b < 0:
+        return src
+    raise_part = src[a + len(old):b]
+    return src[:a] + (
+        "        if key not in self.keys():\n" + raise_part
+        + '        log = list(self.h5file["logs"][key])\n'
+        '        if isinstance(log[0], bytes):\n'
+        '            return [li.decode("utf") for li in log]\n'
+        "        return log\n") + src[b + len("        return log\n"):]
+
+
 MUTANTS = [
     # R1.1
     ("ndarray: offset read after the resize", WR,
@@ -3611,6 +3849,10 @@ MUTANTS = [
     ("uint64 storage for every feature starting with 'frame'", WR,
      ("        elif feat in FEATURES_UINT64:\n",
       '        elif feat.startswith("frame"):\n'), "R1.5"),
+    ("first-match dtype table with a suffix row", WR,
+     _dtype_first_match_suffix, "R1.5"),
+    ("while-loop tiling skips a single remaining event", WR,
+     _chunk_while_loop_bad_guard, "R1.2"),
     ("metadata equal to the stored value are not rewritten", WR,
      _metadata_skip_equal, "R1.A"),
     ("try/except get-or-create starts an unknown group at 0", WR,
@@ -3773,6 +4015,13 @@ TWINS = [
       '        elif feat == "frame":\n')),
     ("ragged counter get-or-create by try/except, two statements", WR,
      _ragged_try_except_two_steps),
+    # round 5
+    ("dtype chosen by first match over a dispatch tuple", WR,
+     _dtype_first_match),
+    ("chunk loop as counted while-loop, remainder behind a guard clause",
+     WR, _chunk_while_loop),
+    ("log reader with guard clauses and early return", LG,
+     _log_reader_guard_clauses),
 ]
 
 # mutants that re-introduce the repaired defects (apply to the fixed tree)
